@@ -473,6 +473,29 @@ func c08CCITTCodes(r *kit.Rand, cols int) []byte {
 	)
 	_ = wm1728
 	_ = wm2048
+	whiteRun := func(n int) { // a white run of n pixels and a black run of 0 in horizontal mode
+		put(horiz)
+		for n >= 2560 {
+			put(ext)
+			n -= 2560
+		}
+		if m := n / 64; m > 0 {
+			// white make-up codes 64..1728 (T.4 table 3)
+			put([]string{"11011", "10010", "010111", "0110111", "00110110", "00110111", "01100100", "01100101", "01101000", "01100111",
+				"011001100", "011001101", "011010010", "011010011", "011010100", "011010101", "011010110", "011010111", "011011000", "011011001",
+				"011011010", "011011011", "010011000", "010011001", "010011010", "011000", "010011011",
+				// 1792..2496: the extended make-up codes, the same for both colours
+				"00000001000", "00000001100", "00000001101", "000000010010", "000000010011", "000000010100", "000000010101", "000000010110", "000000010111",
+				"000000011100", "000000011101", "000000011110"}[m-1])
+			n -= 64 * m
+		}
+		// white terminating codes 0..63
+		put([]string{"00110101", "000111", "0111", "1000", "1011", "1100", "1110", "1111", "10011", "10100", "00111", "01000", "001000", "000011", "110100", "110101",
+			"101010", "101011", "0100111", "0001100", "0001000", "0010111", "0000011", "0000100", "0101000", "0101011", "0010011", "0100100", "0011000", "00000010", "00000011", "00011010",
+			"00011011", "00010010", "00010011", "00010100", "00010101", "00010110", "00010111", "00101000", "00101001", "00101010", "00101011", "00101100", "00101101", "00000100", "00000101", "00001010",
+			"00001011", "01010010", "01010011", "01010100", "01010101", "00100100", "00100101", "01011000", "01011001", "01011010", "01011011", "01001010", "01001011", "00110010", "00110011", "00110100"}[n])
+		put(b0)
+	}
 	whiteRow := func() {
 		put(horiz)
 		n := cols
@@ -499,9 +522,20 @@ func c08CCITTCodes(r *kit.Rand, cols int) []byte {
 		}
 	}
 	rows := 4 + r.Intn(6)
-	style := r.Intn(3)
+	style := r.Intn(4)
 	for i := 0; i < rows; i++ {
 		switch {
+		case style == 3 && i%2 == 0:
+			// thousands of changing elements, then a long constant stretch
+			p := kit.Pick(r, []int{4000, 8200, 8800, 20000})
+			for x := 0; x < p; x += 2 {
+				put(horiz)
+				put(w1)
+				put(b1)
+			}
+			whiteRun(cols - p)
+		case style == 3:
+			pairsRow() // short codes all along the stretch
 		case style == 0 && i%2 == 0, style == 1 && i == 0:
 			pairsRow() // reference line without changing elements
 		case style == 0:
